@@ -49,7 +49,7 @@ THEOREMS = [
 LEAN_MODULES = ["PorepyVerif.C06.Props"]
 AUDIT = "PorepyVerif/C06/Audit.lean"
 DRIVER = "PorepyVerif/C06/Driver.lean"
-N = {"quick": 120, "thorough": 2500}
+N = {"quick": 100, "thorough": 2000}
 RULE = ("md-grids with 2-4 subdomains (dim 0-3, 1-3 cells) and 0-3 mortar grids instantiated in random order; 2-4 variables "
         "(cells/faces/nodes multiplicities 0-2, names from a pool of 3 so that a name recurs on other grids and on interfaces); "
         "2-5 equations (cells/faces/nodes multiplicities 0-2, zero-row blocks and an equation without grids are frequent, "
